@@ -16,6 +16,39 @@ theorem gt_real (a b : ℝ) : FftLike.gt a b = true ↔ b < a := by
   show decide (b < a) = true ↔ b < a
   exact decide_eq_true_iff
 
+/-- **`np.round` (half to even) is monotone**, at the real instance: discharges `hmono` of `C09.scratch_shape_monotone` -/
+theorem roundEven_real_mono (a b : ℝ) (h : a ≤ b) : (FftLike.roundEven a : Int) ≤ FftLike.roundEven b := by
+  show (if a - ⌊a⌋ < 1 / 2 then ⌊a⌋ else if 1 / 2 < a - ⌊a⌋ then ⌊a⌋ + 1 else if ⌊a⌋ % 2 = 0 then ⌊a⌋ else ⌊a⌋ + 1) ≤
+    (if b - ⌊b⌋ < 1 / 2 then ⌊b⌋ else if 1 / 2 < b - ⌊b⌋ then ⌊b⌋ + 1 else if ⌊b⌋ % 2 = 0 then ⌊b⌋ else ⌊b⌋ + 1)
+  have hfl : ⌊a⌋ ≤ ⌊b⌋ := Int.floor_le_floor h
+  rcases lt_or_eq_of_le hfl with hlt | heq
+  · have ha : (if a - ⌊a⌋ < 1 / 2 then ⌊a⌋ else if 1 / 2 < a - ⌊a⌋ then ⌊a⌋ + 1 else if ⌊a⌋ % 2 = 0 then ⌊a⌋ else ⌊a⌋ + 1) ≤ ⌊a⌋ + 1 := by
+      split_ifs <;> omega
+    have hb : ⌊b⌋ ≤ (if b - ⌊b⌋ < 1 / 2 then ⌊b⌋ else if 1 / 2 < b - ⌊b⌋ then ⌊b⌋ + 1 else if ⌊b⌋ % 2 = 0 then ⌊b⌋ else ⌊b⌋ + 1) := by
+      split_ifs <;> omega
+    omega
+  · rw [← heq]
+    split_ifs <;> first | omega | (exfalso; linarith)
+
+/-- the min law used by the scale theorems, at the real instance -/
+theorem min_real (a b : ℝ) : FftLike.min a b = min a b := rfl
+
+/-- grid of the non-vacuity instances: `dx = du = 1/2`, `z = λ = 1`, `os = 1` gives 4 x 4 -/
+theorem fftShape_half_example : fftShape (1/2 : ℝ) (1/2) (1/2) (1/2) 1 1 1 = (4, 4) := by
+  have h4 : ((RealLike.ofInt 1 : ℝ) / ((1/2 : ℝ) * (1/2) / (1 * 1 * RealLike.ofInt 1))) = 4 := by
+    simp only [RealLike.ofInt]; norm_num
+  simp only [fftShape, Gen.fftShapeAlpha, Gen.fftAlphaCall, Gen.dftAlpha, h4, FftLike.roundEven]
+  norm_num
+
+/-- per-axis sampling with consistent wavelengths: `du = (1/2, 1/4)` gives the non-square grid 4 x 8 -/
+theorem fftShape_aniso_example : fftShape (1/2 : ℝ) (1/2) (1/2) (1/4) 1 1 1 = (4, 8) := by
+  have h4 : ((RealLike.ofInt 1 : ℝ) / ((1/2 : ℝ) * (1/2) / (1 * 1 * RealLike.ofInt 1))) = 4 := by
+    simp only [RealLike.ofInt]; norm_num
+  have h8 : ((RealLike.ofInt 1 : ℝ) / ((1/2 : ℝ) * (1/4) / (1 * 1 * RealLike.ofInt 1))) = 8 := by
+    simp only [RealLike.ofInt]; norm_num
+  simp only [fftShape, Gen.fftShapeAlpha, Gen.fftAlphaCall, Gen.dftAlpha, h4, h8, FftLike.roundEven]
+  norm_num
+
 /-- `t ↦ exp(i t)` is additive -/
 theorem expI_add_complex (a b : ℝ) : (CxLike.expI (a + b) : ℂ) = CxLike.expI a * CxLike.expI b := by
   show Complex.exp (((a + b : ℝ) : ℂ) * Complex.I) = Complex.exp ((a : ℂ) * Complex.I) * Complex.exp ((b : ℂ) * Complex.I)
